@@ -68,7 +68,12 @@ def big_blocks(ctx):
     count against the single-decoder scan, judged by PbfBigJudge.tla."""
     q = ctx.quick()
     D = lambda n: {"k": "data", "n": n}
-    shapes = [[D(8000), D(8001), D(1), D(9000)], [D(16001), D(0), D(7999), D(12000), D(3)]]
+    G = lambda n, g: {"k": "data", "n": n, "g": g}                 # block with its own granularity field
+    PAD = lambda n: {"k": "data", "n": n, "pad": 4600000}          # > 4 MiB uncompressed although it holds few elements
+    shapes = [[D(8000), D(8001), D(1), D(9000)], [D(16001), D(0), D(7999), D(12000), D(3)],
+              # blocks that do / do not carry the optional block parameters, so that which decoder saw which block matters
+              [G(3, 1000), D(3), G(2, 10), D(4), D(1), G(5, 100), D(2), D(2), G(1, 7), D(3)],
+              [PAD(40), PAD(41), PAD(42), PAD(43), PAD(44), PAD(45)]]
     if not q:
         shapes += [[D(8000)] * 12, [D(25000), D(1), D(1), D(8192), D(8193), D(0), D(8000), D(2)], [D(4099)] * 23]
     cases = [{"kind": "big", "cfg": {"n": 1, "blocks": b, "endkind": "eof", "hdr": h}, "procs": ([1, 2, 3, 11] if q else [1, 2, 3, 4, 5, 7, 11, 16, 32]),
